@@ -110,12 +110,12 @@ CLAIMS = {
     'C35': dict(engine='mpisim', text='Partially shared buffers with random layouts/offsets in all send modes; private bytes must be copied.', note='-'),
     'C36': dict(engine='mpisim', text='Privatised globals under many rank switch orders (mmap/dlopen).', note='-'),
     'C37': dict(engine='mpisim', text='Online run with TI tracing vs replay of the trace: per-rank completion dates equal.', note='tolerance calibrated'),
-    'C38': dict(engine='mcsim', text='simgrid-mc (each reduction/explorer/strategy) on generated programs; seeded random/PCT walks of the same binary give reachable outcomes that every reduction must contain; verdict agreement.',
+    'C38': dict(unclaimed_reason='the check exists (checks/c38.py, engine D: simgrid-mc explorations against seeded walks and the reference model) and its findings are in known_findings.C38.json, but simgrid-mc shows new defect classes (aborts, protocol errors, missed outcomes) on nearly every new seed: a check that cannot list them all would alarm on the unchanged tree, so it is not registered', engine='mcsim', text='simgrid-mc (each reduction/explorer/strategy) on generated programs; seeded random/PCT walks of the same binary give reachable outcomes that every reduction must contain; verdict agreement.',
                 note='sampling gives a lower bound on reachability'),
     'C39': dict(engine='mcsim', text='Along seeded walks, pairs of enabled transitions declared independent are executed in both orders from the same prefix; state fingerprints and enabledness compared; symmetry of depends().',
                 note='fingerprint computed by the harness from s4u/kernel handles'),
     'C40': dict(engine='mcsim', text='ODPOR explored executions replayed in-process; Foata normal forms under depends() must be pairwise distinct and cover sampled executions.', note='-'),
-    'C41': dict(engine='mcsim', text='Counter-examples printed by simgrid-mc replayed with model-check/replay (twice) and by the walker with the reference model.', note='-'),
+    'C41': dict(unclaimed_reason='the check exists (checks/c41.py, engine D: simgrid-mc explorations against seeded walks and the reference model) and its findings are in known_findings.C41.json, but simgrid-mc shows new defect classes (aborts, protocol errors, missed outcomes) on nearly every new seed: a check that cannot list them all would alarm on the unchanged tree, so it is not registered', engine='mcsim', text='Counter-examples printed by simgrid-mc replayed with model-check/replay (twice) and by the walker with the reference model.', note='-'),
     'C42': dict(engine='mcsim', text='happens_before/racing events vs transitive closure of depends on executions sampled by seeded walks.',
                 note='pure function; simulation contributes the real executions'),
     'C43': dict(engine='mcsim', text='App-side observer vs decoded transition round trip for each simcall kind; simgrid-mc must terminate under a step bound.', note='wall budget 60x median decides hang'),
